@@ -36,6 +36,8 @@ TEXTBOOK = {
     "none-level-between-left-levels": 'grammar g; @left "*"; @none "!"; @left "&"; start = e; e = e "*" e | e "&" e | "!" e | "n";',
     "none-level-first": 'grammar g; @none "<"; @left "+"; @left "|"; start = e; e = e "+" e | e "|" e | e "<" e | "n";',
     "none-level-in-the-middle": 'grammar g; @left "+"; @none "<"; @left "|"; start = e; e = e "+" e | e "|" e | e "<" e | "n";',
+    "rule-handle-after-its-rule": 'grammar demo; start = e; e = e e | "a"; @left <e = e e> "a";',
+    "directives-after-the-rules": 'grammar g; start = e; e = e "+" e | e "*" e | "-" e | "n"; @right <e = "-" e>; @left "*"; @left "+";',
     "binary-rule-handle": 'grammar g; @left <e = e "+" e>; start = e; e = e "+" e | "n";',
 }
 
@@ -99,6 +101,10 @@ def gen_grammar(rng):
                 break
             k = rng.randint(1, min(3 if len(pool) > len(ts) else 2, len(pool)))
             directives.append("%s %s;" % (rng.choice(["@left", "@right", "@none"]), " ".join(pool.pop() for _ in range(k))))
+    if rng.random() < 0.4:
+        # directives may stand anywhere among the declarations: after the rules they rank, or between them
+        k = rng.randint(1, len(rules))
+        return "grammar g; " + " ".join(rules[:k]) + " " + " ".join(directives) + " " + " ".join(rules[k:])
     return "grammar g; " + " ".join(directives) + " " + " ".join(rules)
 
 
